@@ -44,6 +44,17 @@ pub fn run(tier: &str) -> Result<Report, String> {
                 fs.push(crate::formulas::f(&t.replace("OP", w), &ctx.user));
             }
         }
+        // EW and AW (and EU / AU) over the SAME operands in one formula
+        for t in [
+            "(a EW (EX a)) & ~ (a AW (EX a))",
+            "((~ a) AW (AX a)) | ((~ a) EW (AX a))",
+            "!{x}: (((~ {x}) EW a) & ~ ((~ {x}) AW a))",
+            "!{x}: ((({x} | a) AW (EX {x})) ^ (({x} | a) EW (EX {x})))",
+            "((EF a) EW a) & ((EF a) AW a) & ((EF a) EU a) & ((EF a) AU a)",
+            "3{x}: @{x}: ((a AW {x}) & ~ (a EW {x}))",
+        ] {
+            fs.push(crate::formulas::f(t, &ctx.user));
+        }
         if rep.samples.len() < 5 {
             let f = &fs[fs.len() / 2];
             rep.sample(json!({"network": b.name, "formula": f.show(&ctx.user), "expected_states_per_colour": ctx.expected(f).iter().map(|m| format!("{m:b}")).collect::<Vec<_>>()}));
@@ -52,13 +63,13 @@ pub fn run(tier: &str) -> Result<Report, String> {
         slices.push(json!({"network": b.name, "max_nodes": m, "alphabet": alpha.describe(), "formulae_with_EW_or_AW": fs.len()}));
     }
     // every pair of coloured sets as arguments of EW / AW, and the defining equivalences
-    let forms = ["%p% EW %q%", "%p% AW %q%", "(%p% EU %q%) | EG %p%", "~ ((~ %q%) EU ((~ %p%) & (~ %q%)))", "%q% => (%p% EW %q%)", "%q% => (%p% AW %q%)", "EX (%p% AW %q%)", "(%p% EW %q%) AW %p%"];
+    let forms = ["%p% EW %q%", "%p% AW %q%", "(%p% EU %q%) | EG %p%", "~ ((~ %q%) EU ((~ %p%) & (~ %q%)))", "%q% => (%p% EW %q%)", "%q% => (%p% AW %q%)", "EX (%p% AW %q%)", "(%p% EW %q%) AW %p%", "(%p% EW %q%) & ~ (%p% AW %q%)", "(%p% AW %q%) => (%p% EW %q%)", "(%p% AW %q%) ^ (%p% EW %q%)", "(%p% AU %q%) | ((%p% AW %q%) & ~ (%p% EW %q%))"];
     let ck = Checks { semantic: true, unit: false, entries: Entries::Ext2 };
     for name in if tier == "quick" { vec!["tog2"] } else { vec!["tog2", "imp1", "con2"] } {
         let b = by_name(&nets, name);
         sem::ops_sweep(&mut rep, &b, &forms, true, ck);
     }
     rep.set("slices", json!(slices));
-    rep.rule = "all closed formulae up to max_nodes nodes over all operators that contain EW or AW, plus 18 template formulae in which EW / AW sub-formulae occur twice up to renaming (one / two free variables, mirrored roles, different depths), on the core networks, compared point-wise with the oracle's E[a W b] = E[a U b] or EG a and A[a W b] = not E[not b U (not a and not b)]; plus EW/AW (and their defining right-hand sides) on every pair of coloured sets of tiny networks as wild-card arguments".into();
+    rep.rule = "all closed formulae up to max_nodes nodes over all operators that contain EW or AW, plus 6 formulae with EW and AW over the same operands and 18 template formulae in which EW / AW sub-formulae occur twice up to renaming (one / two free variables, mirrored roles, different depths), on the core networks, compared point-wise with the oracle's E[a W b] = E[a U b] or EG a and A[a W b] = not E[not b U (not a and not b)]; plus EW/AW (and their defining right-hand sides) on every pair of coloured sets of tiny networks as wild-card arguments".into();
     Ok(rep)
 }
